@@ -606,7 +606,10 @@ def p_c11(ctx):
         evs = cache[b["file"]]
         e = evs[b["l"] - 1]
         viols.append({"what": b["what"], "replay": {"pipeline": "lookup", "world": world_of(evs, b["l"]), "event": e}})
-    samples = [json.loads(x) for x in open(files[-3]).read().splitlines() if '"Lookup"' in x][:2]
+    samples = []
+    for f in files:
+        samples += [json.loads(x) for x in open(f).read().splitlines()[:400] if '"Lookup"' in x and '"targets":[{' in x][:1]
+    samples = samples[:3] or [{"note": "no lookup with targets in the first lines"}]
     # (3) generated configurations: every written reference resolves to exactly the declaration its address denotes
     v3, cov3 = expr_family(ctx, {"C11"})
     viols += v3
